@@ -521,6 +521,34 @@ def _check(inp, out):
     if oc != 2 and not any(a[0] in (2, 3) for a in acts) and gen_events and gen_events[-1][0] == 5 and outcome == [] \
             and got != exp:
         return f"the peer closed after {len(exp)} complete frames but the handler only saw {got}"
+    # replay the handler's own actions along the log: which timeout was yielded before each event, when the client was closed
+    pending = deque(acts)
+    tcur, waiting, handler_closed = 0, None, (oc == 2)
+    for ev in log:
+        if ev[0] == 1:
+            if handler_closed:
+                return f"a new generator ({ev[1]}) was started after the handler had closed the client"
+        elif ev[0] in (2, 3):
+            now = ev[3]
+            if waiting is not None:
+                t0, t = waiting
+                if t != [] and now > t0 + t[0]:
+                    return (f"the handler yielded timeout {t[0]} at time {t0} but was only resumed at time {now} "
+                            f"(the wait did not use the timeout it had just yielded)")
+                if ev[0] == 3 and ev[2] == [2]:
+                    if t == []:
+                        return f"TimeoutError at time {now} although the handler had yielded no timeout"
+                    if now != t0 + t[0]:
+                        return f"TimeoutError at time {now}, but timeout {t[0]} was yielded at time {t0}"
+            tcur = now
+        else:
+            continue
+        a = pending.popleft() if pending else [2]
+        waiting = None
+        if a[0] in (2, 3):
+            handler_closed = True
+        if a[0] in (0, 3):
+            waiting = (tcur, a[1])
     # a TimeoutError needs a finite yielded timeout
     if any(ev[0] == 3 and ev[2] == [2] for ev in log) and not any(a[0] in (0, 3) and a[1] != [] for a in acts):
         return "TimeoutError thrown although no finite timeout was ever yielded"
